@@ -152,6 +152,7 @@ type prepared struct {
 	nMod    int
 	nFault  int
 	fsckRef bool // Fsck holds before and after the fault-free run
+	cmd     []string
 }
 
 func prepare(setup []Step, command []string) (*prepared, error) {
@@ -163,6 +164,9 @@ func prepare(setup []Step, command []string) (*prepared, error) {
 		}
 	}
 	p := &prepared{base: e, pre: e.Cur}
+	// "@<branch>" arguments stand for the commit id that branch holds in THIS instance of the state
+	command = resolveArgs(e.Cur, command)
+	p.cmd = command
 	pb := e.Box.Clone()
 	p.preP = readOnlyProbe(pb)
 	pb.Close()
